@@ -302,6 +302,8 @@ Proof. exact set_hevc_record. Qed.
 Print Assumptions C19_descriptor_hevc_record.
 
 (* ------------------------------------------------------------------ the whole init segment in C01's box model
+   ("C01's model" below is coq/c19/C19BoxCodec.v + C19BoxModel.v: a frozen, verbatim copy of coq/c01/C01Codec.v and
+   C01Model.v at /verif commit c35b7dd, see the banner of those files)
    (C19TreeModel.v: tree_of s = the box tree of state s with every constant the constructors write; C01's
    encode_seq false / decode_file are the models of InitSegment.Encode / the box loop of DecodeFile; the
    correspondence compares encode_seq false (tree_of s) with the bytes of the real InitSegment.Encode) *)
